@@ -26,7 +26,8 @@ LEVEL_TEXT = ("Exploration: thousands of random operation histories (20-200 oper
               "generated trees; each step is checked against the shadow model, and all retained "
               "node / path / branch / compartment handles and detached copies are re-validated "
               "after each step. Held = held on the histories produced."
-              "Histories include parent-id writes through node handles (re-parenting), after which segments, relatives, paths and branches must follow.")
+              "Histories include parent-id writes through node handles (re-parenting), after which segments, relatives, paths and branches must follow."
+              " Path / Branch views are also built by the caller from a list, tuple, array or range of node ids.")
 LEVEL_NOTE = ("Write-through is decided for node handles obtained from the tree (what the statement "
               "names); writes through node handles obtained from a Path/Branch go to a temporary "
               "copy today and are counted, not decided (DESIGN.md C09 scope note).")
